@@ -257,6 +257,7 @@ def fragment_programs(ctx, specinfo):
         sims = vlib.sample(sims, 4000, ctx.rnd)
     if os.environ.get('C01_FRAG_N'):
         ex, sims = ex[: int(os.environ['C01_FRAG_N'])], sims[: int(os.environ['C01_FRAG_N'])]
+    used = {}
     for sym in ex + sims:
         try:
             src = render(sym)
@@ -265,6 +266,10 @@ def fragment_programs(ctx, specinfo):
         if src not in seen:
             seen.add(src)
             out.append(src)
+            for t in sym:
+                used[t] = used.get(t, 0) + 1
+    # per-production coverage of the generator automaton by the programs handed to the real minifier
+    specinfo.setdefault('evidence', {})['productions_used'] = dict(sorted(used.items()))
     return out
 
 
@@ -477,6 +482,22 @@ OPERANDS = [
 ]
 
 
+def valid_js(ctx, snippets):
+    """syntactic validity of each snippet as a sloppy script, judged by acorn (so that one invalid member does not take a
+    whole batch out of the domain)"""
+    if not snippets:
+        return []
+    valid_js.n += 1
+    pin = ctx.path('gen', 'syntax-%d-in.json' % valid_js.n)
+    pout = ctx.path('gen', 'syntax-%d-out.json' % valid_js.n)
+    json.dump(snippets, open(pin, 'w'))
+    vlib.run(['node', '--expose-internals', os.path.join(vlib.ROOT, 'js', 'c01_syntax.js'), pin, pout], timeout=600)
+    return json.load(open(pout))
+
+
+valid_js.n = 0
+
+
 def _wrap(expr):
     return 'try{out(%s,a,b,c)}catch(e){out("E",a,b,c)}' % expr
 
@@ -514,6 +535,8 @@ def precedence_matrix(ctx):
     rnd = ctx.rnd
     # (known constructs are excluded per expression, not per batch)
     exprs = [e for e in exprs if not excluded(_wrap(e))]
+    ok = valid_js(ctx, [_wrap(e) for e in exprs])
+    exprs = [e for e, v in zip(exprs, ok) if v]
     for pi, pre in enumerate(OPERANDS):
         ex = exprs
         if quick:
@@ -1889,6 +1912,8 @@ def regexes(ctx):
 def literal_programs(ctx):
     progs = []
     strs = [x for x in string_literals(ctx) if not excluded('out(%s)' % x)]
+    ok = valid_js(ctx, ['out(%s)' % x for x in strs])
+    strs = [x for x, v in zip(strs, ok) if v]
     for i in range(0, len(strs), 12):
         progs.append('\n'.join('out(%s)' % s for s in strs[i:i + 12]))
     # legacy octal escapes are sloppy only; the same literals in strict mode (invalid ones are outside the domain)
@@ -1896,6 +1921,8 @@ def literal_programs(ctx):
         if ctx.rnd.random() < (0.1 if ctx.quick() else 0.5):
             progs.append('"use strict";\n' + '\n'.join('out(%s)' % s for s in strs[i:i + 12] if not re.search(r'\\[0-9]', s)))
     tl = [x for x in template_literals(ctx) if not excluded('out(%s)' % x)]
+    ok = valid_js(ctx, ['out(%s)' % x for x in tl])
+    tl = [x for x, v in zip(tl, ok) if v]
     for i in range(0, len(tl), 8):
         progs.append('var x="X",y=1;function tag(s,...v){out(s,s.raw,v)}\n' + '\n'.join('out(%s)' % s for s in tl[i:i + 8]))
     for i in range(0, len(CONCATS), 6):
@@ -1910,9 +1937,13 @@ def literal_programs(ctx):
                 continue
             stmts.append(c.replace('%s', n))
     stmts = [x for x in stmts if not excluded(x)]
+    ok = valid_js(ctx, ['try{%s}catch(e){}' % x for x in stmts])
+    stmts = [x for x, v in zip(stmts, ok) if v]
     for i in range(0, len(stmts), 10):
         progs.append('var x={a:1,1:2,10:3};\n' + '\n'.join('try{%s}catch(e){out("E")}' % s for s in stmts[i:i + 10]))
     rx = [x for x in regexes(ctx) if not excluded('out(%s)' % x)]
+    ok = valid_js(ctx, ['out(%s)' % x for x in rx])
+    rx = [x for x, v in zip(rx, ok) if v]
     for i in range(0, len(rx), 10):
         progs.append('\n'.join('out(%s)' % s for s in rx[i:i + 10]))
     return progs
